@@ -540,13 +540,39 @@ def replay(prop, path):
     return 0
 
 
+STD_ASSUMPTIONS_PLACEHOLDER = None
 STD_ASSUMPTIONS = [
     "the model functions compute what the Rust functions they mirror compute (checked by the correspondence run "
     "of this check on the scenarios counted above, not proved)",
     "Rust std collections behave as specified (BTreeMap/BTreeSet sorted, VecDeque FIFO)",
 ]
 
+MC_RULE = ("MC scenarios: random systems of 2-3 table-driven processes on 1-3 nodes (several processes per node), "
+           "programs with sends, local sends, set_timer / set_timer_once / cancel_timer on 1-2 names, optional drop / "
+           "duplication / corruption rates, callbacks with local messages, crashes, link operations and ordering mode; "
+           "explored by the real ModelChecker (BFS/DFS x Full/Partial/Disabled) and by the extracted model; EVERY state "
+           "handed to the invariant is compared (digest of the complete McState incl. store indexes, event logs, "
+           "counters, network, trace), plus result, statuses, collected set, and the checker's state before/after. ")
+
 PROPERTIES = {
+    "C09": {
+        "suites": [suite_mc, suite_mc_staged],
+        "rule": MC_RULE + "Each run is executed twice on the same ModelChecker. distinct_nontrivial = distinct scenarios "
+                "with >= 8 evaluated states and timers, faults or a crash (staged: >= 2 start states).",
+        "assumptions": STD_ASSUMPTIONS + [
+            "process save/restore is exact (the property's own side condition; true of the harness's ScriptProc)",
+            "aliasing between the checker's copies and the source System is invisible to a value-passing model: "
+            "covered by the repeated-run monitors only (PARTIAL for the clause 'the System it was created from is untouched')"],
+    },
+    "C13": {
+        "suites": [suite_store],
+        "rule": "as C20 (STORE scenarios with timers of equal and different delays set, re-set, cancelled and fired at "
+                "different moments, both ordering modes); distinct_nontrivial as C20",
+        "assumptions": STD_ASSUMPTIONS + [
+            "PARTIAL: the feasibility clause (every real-time-feasible schedule is explored) is proved only as the "
+            "real-time lemma C13_blocker_fires_first_partial; the system-level statement is checked by the hand-off "
+            "inclusion monitor of C04"],
+    },
     "C20": {
         "suites": [suite_store],
         "rule": "STORE scenarios: random operation scripts (push message/timer, pop offered, pop any live, duplicate "
